@@ -393,6 +393,20 @@ def impl(case):
             loader = cls(params)
         else:
             params[NM.JOINT_DEGREE_TYPE] = tval
+            if k != 3 and len(repr(case)) % 2 == 0:
+                # history on ONE params dict: the caller loaded something else from this very dict object before,
+                # then replaced the data entry in place (a cache keyed by id(params) / type would return the old loader)
+                datakey = {0: NM.JDD, 1: NM.JDS, 2: NM.ARR_FP, 4: NM.FP}[k]
+                true_val = params[datakey]
+                width = max(1, len(msz))
+                params[datakey] = {0: {(9,) * width: 1.0}, 1: [(7,) * width, (7,) * width],
+                                   2: [(lambda kk: 1.0)] * max(1, len(case.get("bounds", [1]))),
+                                   4: (lambda jd: 0.5)}[k]
+                try:
+                    JointDegreeDistribution.load_joint_degree(params)
+                except Exception:  # noqa: BLE001 - the decoy's own outcome is irrelevant
+                    pass
+                params[datakey] = true_val
             loader = JointDegreeDistribution.load_joint_degree(params)
     jdd = []
     for key, v in loader.jdd.items():
